@@ -75,6 +75,12 @@ def gen_text(rng, tier):
     if k < 0.27:
         n = rng.choice([1000, 10000]) if tier == 'quick' else rng.choice([10000, 100000])
         return 'long_line', ''.join(chr(rng.choice([0x41, 0xe9, 0xac00, 0x1f600, 0x7f, 0x10ffff])) for _ in range(n)) + rng.choice(['', '\n', '\nx'])
+    if k < (0.29 if tier == 'quick' else 0.3):
+        # one very long line of multi-byte characters with a random ASCII shift: every power-of-two byte
+        # offset (4 KiB, 8 KiB, 64 KiB buffers) falls inside some character
+        n = rng.choice([3000, 9000, 23000, 30000]) if tier == 'quick' else rng.choice([9000, 30000, 70000])
+        ch = rng.choice(['한', 'é', '😀', '한'])
+        return 'long_multibyte_line', 'a' * rng.randint(0, 3) + ch * n + rng.choice(['\n', '\nsecond é line\n', ''])
     if k < 0.32:
         n = rng.choice([100, 1000])
         return 'many_lines', ''.join(rng.choice(['', 'a', '가나', '\r', '😀z']) + '\n' for _ in range(n)) + rng.choice(['', 'end'])
@@ -116,11 +122,15 @@ def _case(i):
     planes = {min(ord(ch) >> 16, 3) for ch in text}
     for pl in planes:
         res['hist']['plane:%d' % pl] = 1
+    if any(len(l.encode('utf-8')) > 65536 for l in text.split('\n')):
+        res['hist']['line>64KiB'] = 1
     if text and not text.endswith('\n'):
         res['hist']['no_final_newline'] = 1
     res['key'] = C.sha(text)
     cands = [p for p in PROGRAMS if len(text) >= p[3]]
     progs = rng.sample(cands, min(len(cands), 2 if len(text) > 2000 else 3))
+    if kind in ('long_multibyte_line', 'long_line'):
+        progs = [p for p in PROGRAMS if p[0] == rng.choice(['cat', 'cat_exit'])]
     for name, prog, fexp, _ in progs:
         want = fexp(text)
         d = os.path.join(_RUN['dir'], name)
@@ -211,6 +221,6 @@ def main(tier, seed):
     }
     assumptions = ['expected output is the identity / reversal formula on the input text; the reference interpreter only validates the formulas on short inputs at start-up',
                    'end of input must appear to the program as NaN and only then: copying beyond the end prints the NaN text, copying until NaN stops exactly at the end']
-    minimum = {'runs': (hist.get('runs', 0), 1500), 'astral texts': (hist.get('plane:1', 0) + hist.get('plane:3', 0), 50),
+    minimum = {'runs': (hist.get('runs', 0), 1500), 'lines longer than 64 KiB': (hist.get('line>64KiB', 0), 1), 'astral texts': (hist.get('plane:1', 0) + hist.get('plane:3', 0), 50),
                'no final newline': (hist.get('no_final_newline', 0), 40), 'executables': (len(_RUN['exes']), 30)}
     return rep.finish(cov, assumptions, t0, minimum)
